@@ -199,6 +199,22 @@ def run_circuit(ctx, case):
         got2 = [None if p_.grad is None else p_.grad.detach().numpy().copy() for p_ in params]
         compare_grads(ctx, got2, fd_grad(f2, params), 'two forward passes with different placeholder data before one backward: gradient = finite differences')
         ctx.label('two passes, one backward')
+    # (C) constant (requires_grad=False) parametrised gates re-parametrised through set_args AFTER the wrapper was built: whatever matrices the forward pass
+    #     uses, the backward pass must differentiate that same forward pass
+    frozen_gates = [g_ for g_, _ in circ.gate_index_list if isinstance(g_, nq.sim.ParameterGate) and not getattr(g_, 'requires_grad', False)
+                    and getattr(g_, 'kind', '') != 'custom' and not isinstance(g_.args, nq.sim._internal._ParameterHolder)]
+    if frozen_gates and params and case['prng'] % 3 == 2:
+        done = set()
+        for g_ in frozen_gates:
+            if id(g_) not in done:
+                done.add(id(g_))
+                g_.set_args(tuple(float(x) + 0.53 for x in g_.args))
+        for p_ in params:
+            p_.grad = None
+        model().backward()
+        got4 = [None if p_.grad is None else p_.grad.detach().numpy().copy() for p_ in params]
+        compare_grads(ctx, got4, fd_grad(lambda: model(), params), 'after set_args on a constant gate of a wrapped circuit: gradient = finite differences of the forward value')
+        ctx.label('constant gate re-parametrised')
     # (B) two circuits applied to the same input and added: autograd hands ONE gradient tensor to both branches
     if case['prng'] % 4 == 1 and 'custom-forward' not in sig:
         import copy
@@ -411,7 +427,7 @@ def run_mf(ctx, case):
 # --------------------------------------------------------------------------------------------- losses built on the custom operators
 @st.composite
 def _strat_loss(draw, tier='quick'):
-    return dict(kind=draw(st.sampled_from(['polar', 'relent', 'relent_first', 'relent_both', 'entropy', 'eof_model', 'concurrence_model', 'varqec', 'flat_bridge', 'flat_bridge'])), d=draw(st.integers(2, 4)),
+    return dict(kind=draw(st.sampled_from(['polar', 'relent', 'relent_first', 'relent_both', 'entropy', 'entropy_unnorm', 'eof_model', 'concurrence_model', 'varqec', 'flat_bridge', 'flat_bridge'])), d=draw(st.integers(2, 4)),
                 r=draw(st.integers(1, 4)), field=draw(st.sampled_from(['real', 'complex'])), prng=draw(st.integers(0, 2 ** 31)))
 
 
@@ -442,6 +458,15 @@ def run_loss(ctx, case):
             params = [man.theta, man2.theta]
         else:
             f = lambda: nq.utils.get_von_neumann_entropy(man(), ('pade', 6, 8))
+    elif kind == 'entropy_unnorm':
+        # -Tr(A log A) of a positive matrix A = X X^dagger whose trace is NOT fixed by the parametrisation
+        Xr = torch.tensor(r.normal(size=(d, d)) * 0.5 + np.eye(d), requires_grad=True)
+        Xi = torch.tensor(r.normal(size=(d, d)) * 0.5, requires_grad=True)
+
+        def f():
+            X = torch.complex(Xr, Xi)
+            return nq.utils.get_von_neumann_entropy(X @ X.conj().T / d, ('pade', 6, 8))
+        params = [Xr, Xi]
     elif kind in ('eof_model', 'concurrence_model'):
         rho = ref.rand_dm(r, 4, rk)
         cls = nq.entangle.EntanglementFormationModel if kind == 'eof_model' else nq.entangle.ConcurrenceModel
@@ -503,12 +528,15 @@ def run_loss(ctx, case):
     loss.backward()
     got = [None if p.grad is None else p.grad.detach().numpy().copy() for p in params]
     want = fd_grad(f, params)
-    compare_grads(ctx, got, want, f'{kind}: gradient = finite differences', 1e-5 if kind in ('relent', 'relent_first', 'relent_both', 'entropy') else 1e-6)
+    compare_grads(ctx, got, want, f'{kind}: gradient = finite differences', 1e-5 if kind in ('relent', 'relent_first', 'relent_both', 'entropy', 'entropy_unnorm') else 1e-6)
     # the flat bridge on the same loss
     if kind in ('eof_model', 'concurrence_model', 'varqec'):
         hf = nq.optimize.hf_model_wrapper(model)
         th = nq.optimize.get_model_flat_parameter(model)
         fv, gr = hf(th)
+        gr_keep = np.array(gr, copy=True)
+        hf(th + 0.37)  # another evaluation of the same wrapper: the gradient handed out before belongs to the caller
+        ctx.close(gr, gr_keep, 0, f'{kind}: a gradient returned by hf_model_wrapper is not overwritten by the next call')
         fdg = np.array([(hf(th + 1e-5 * e, tag_grad=False) - hf(th - 1e-5 * e, tag_grad=False)) / 2e-5 for e in np.eye(len(th))])
         ctx.close(gr, fdg, 1e-6, f'{kind}: hf_model_wrapper gradient = finite differences', max(1.0, np.abs(fdg).max()))
 
